@@ -19,6 +19,7 @@ from yaql.language import expressions as yexpr
 from yaql.language import runner as yrunner
 from yaql.language import specs as yspecs
 from yaql.language import utils as yutils
+from yaql.language import yaqltypes as yqtypes
 
 from vmon import hooks
 from vmon import sched
@@ -37,7 +38,8 @@ ASSUMPTIONS = [
 ]
 REQUIRED = {'sched.schedules': 500, 'sched.with_switch': 300, 'hook.call_points': 5000, 'hook.iter_points': 50,
             'ownership.contexts_created': 1000, 'free.evaluations': 200, 'evalcache.evaluations': 50,
-            'pool.statements': 40, 'reach.runner.call': 5000}
+            'pool.statements': 40, 'reach.runner.call': 5000,
+            'sched.line_schedules': 500, 'sched.line_with_switch': 300, 'hook.line_points': 50000}
 
 POOL = c09.POOL + [
     # strings / regex / datetime / math / branching / system: every library module
@@ -106,6 +108,30 @@ class Mon:
         def host_func(x):
             return x
         self.shared.register_function(host_func, name='hostFunc')
+
+        # host functions whose parameters use the aggregating smart types: one type object is shared by every call
+        @yspecs.parameter('x', yqtypes.AnyOf(str, yqtypes.Integer()))
+        def host_any(x):
+            return [x, type(x).__name__]
+
+        @yspecs.parameter('x', yqtypes.AnyOf(yqtypes.Sequence(), yqtypes.String(), nullable=True))
+        @yspecs.parameter('y', yqtypes.NotOfType(str))
+        def host_any2(x, y=0):
+            return [x, y]
+
+        @yspecs.parameter('x', yqtypes.Chain(yqtypes.NotOfType(bool), yqtypes.AnyOf(int, float)))
+        def host_chain(x):
+            return x * 2
+        self.shared.register_function(host_any, name='hostAny')
+        self.shared.register_function(host_any2, name='hostAny2')
+        self.shared.register_function(host_chain, name='hostChain')
+        # query-level helpers defined in the language itself: def() returns the context that holds the new function,
+        # and the host keeps that context as (part of) its prepared context
+        for text in ('def(helper, hostFunc($) * 2 + 1)', 'def(add2, hostFunc($1) + $2)', 'def(twice, $.select(helper($)))'):
+            nxt = self.eng(text).evaluate(context=self.shared)
+            assert isinstance(nxt, yctx.ContextBase), nxt
+            self.shared = nxt
+        self.lp = None
         self.baton = None
         self.call_points = 0
         self.iter_points = 0
@@ -232,12 +258,16 @@ def baseline(mon, jobs):
 def run_schedule(mon, jobs, chooser):
     b = sched.Baton(chooser)
     mon.baton = b
+    if mon.lp is not None:
+        mon.lp.baton = b
     mon.armed = True
     mon.violations = []
     try:
         res = b.run([(lambda j=j: mon.evaluate(*j)) for j in jobs])
     finally:
         mon.baton = None
+        if mon.lp is not None:
+            mon.lp.baton = None
         mon.armed = False
     return res, b
 
@@ -269,6 +299,9 @@ def plan(tier, seed):
                        'cap': 400 if not thorough else 5000, 'timeout': 3000})
     for p in range(3 if not thorough else 12):
         shards.append({'name': 'random-%d' % p, 'kind': 'random', 'count': 1000 if not thorough else 9000, 'timeout': 3000})
+    for p in range(4 if not thorough else 12):
+        shards.append({'name': 'line-%d' % p, 'kind': 'line', 'count': 700 if not thorough else 6000, 'narrow': p % 2 == 0,
+                       'timeout': 3000})
     shards.append({'name': 'free', 'kind': 'free', 'threads': 6, 'iters': 120 if not thorough else 2500, 'timeout': 3000})
     shards.append({'name': 'evalcache', 'kind': 'evalcache', 'threads': 4, 'iters': 60 if not thorough else 600})
     if thorough:
@@ -276,7 +309,11 @@ def plan(tier, seed):
     return shards
 
 
-SHORT = ['$.n + 1', '$.name', '$.items.len()', '$hostvar', '$.doc.a', 'hostFunc($.n)', '$.n > 3 and $.n < 9',
+HELPERS = ['helper($.n)', '$.items.select(helper($)).sum(0)', 'helper(helper($.n))', 'add2($.n, 1)', 'add2($.n, helper(2))',
+           'twice($.items).toList()', "hostAny('a')", 'hostAny($.n)', 'hostAny($.name)', 'hostAny2($.items)', "hostAny2($.name, 1)",
+           'hostAny2(null, $.n)', 'hostChain($.n)', 'hostChain(2.5)', '[hostAny(1), hostAny(b)]', '$.items.select(hostAny($))',
+           "$.recs.select(hostAny($.b))"]
+SHORT = HELPERS + ['$.n + 1', '$.name', '$.items.len()', '$hostvar', '$.doc.a', 'hostFunc($.n)', '$.n > 3 and $.n < 9',
          '$.items.first()', '[$.n, $n]', 'let(q => $.n) -> $q', '$.items.sum(0)', 'def(f, $ + 1) -> f($.n)',
          '$.items.select($ + 1).first()', '$.items.orderBy($).first()', "$.name.toUpper()", '$.doc.set(z, $.n).len()']
 
@@ -350,6 +387,64 @@ def _random(spec, rec_mon, rec, rng):
         judge(mon, rec, jobs, base, res, b, {'mode': 'replay', 'seq': ch.trace[:2000]})
         if i % 300 == 0:
             rec.sample({'threads': [j[0] for j in jobs], 'scheduling_points': b.points, 'switches': b.switches})
+
+
+LINE_FAMILIES = [HELPERS[:6], [h for h in HELPERS if 'hostAny(' in h], [h for h in HELPERS if 'hostAny2' in h or 'hostChain' in h],
+                 HELPERS[6:]]
+
+
+def _line(spec, mon, rec, rng):
+    """schedules whose scheduling points are the statement starts (LINE events) of the modules that bind, check and
+    convert arguments and look names up: windows inside one dispatch, which the call-level points of the other
+    modes cannot split.  Half of the schedules place ONE preemption uniformly over the points of the first thread
+    (every window of w statements is hit with probability w/N), the rest are random with bounded preemptions."""
+    from yaql.language import contexts, expressions, runner, specs, yaqltypes
+    narrow = spec.get('narrow')
+    mods = (yaqltypes, specs) if narrow else (yaqltypes, specs, runner, contexts, expressions)
+    mon.lp = hooks.LinePoints(hooks.module_codes(*mods)).start()
+    solo_points = {}
+    try:
+        pool = SHORT
+        for i in range(spec['count']):
+            k = rng.choice((2, 2, 3))
+            if rng.random() < 0.6:
+                fam = rng.choice(LINE_FAMILIES)
+                jobs = [(rng.choice(fam), rng.randrange(4), False) for _ in range(k)]
+            else:
+                jobs = [(rng.choice(pool), rng.randrange(4), False) for _ in range(k)]
+            base = baseline(mon, jobs)
+            if i % 2 == 0:
+                key = jobs[0][:2]
+                if key not in solo_points:
+                    _, b1 = run_schedule(mon, [jobs[0]], sched.ReplayChooser([0] * 10))
+                    solo_points[key] = b1.points
+                at = rng.randrange(1, max(solo_points[key], 2))
+                order = list(range(1, k))
+                rng.shuffle(order)
+                seq = [0] * (at + 1) + [order[0]] * 1000000
+                ch = sched.ReplayChooser(seq)
+                desc = {'mode': 'replay', 'seq': None, 'preempt_at': at, 'then': order[0], 'line': True, 'narrow': bool(narrow)}
+                rec.count('sched.line_single_preemption')
+            else:
+                ch = sched.RandomChooser(rng, switch_prob=rng.choice((0.003, 0.01, 0.03, 0.1)), max_preempt=rng.choice((1, 2, 4, 8, None)))
+                desc = None
+            res, b = run_schedule(mon, jobs, ch)
+            if desc is None:
+                desc = {'mode': 'replay', 'seq': ch.trace[:20000], 'line': True, 'narrow': bool(narrow)}
+            rec.count('sched.schedules')
+            rec.count('sched.line_schedules')
+            if b.switches:
+                rec.count('sched.with_switch')
+                rec.count('sched.line_with_switch')
+            rec.case((tuple(j[0] for j in jobs), tuple(j[1] for j in jobs), repr(desc.get('preempt_at')) + repr(ch.trace[:300] if desc['seq'] else '')),
+                     nontrivial=b.switches > 0)
+            judge(mon, rec, jobs, base, res, b, desc)
+            if i % 300 == 0:
+                rec.sample({'mode': 'line-level', 'threads': [j[0] for j in jobs], 'scheduling_points': b.points, 'switches': b.switches})
+    finally:
+        rec.count('hook.line_points', mon.lp.count)
+        mon.lp.stop()
+        mon.lp = None
 
 
 def _threads(mon, rec, spec, rng, worker_eval, label, count_key):
@@ -504,8 +599,19 @@ def replay(data, rec):
         jobs = [tuple(j) for j in data['jobs']]
         base = baseline(mon, jobs)
         sc = data['schedule']
+        if sc.get('preempt_at') is not None:
+            sc['seq'] = [0] * (sc['preempt_at'] + 1) + [sc['then']] * 1000000
         ch = sched.DFSChooser(sc['prefix']) if sc['mode'] == 'dfs' else sched.ReplayChooser(sc['seq'])
-        res, b = run_schedule(mon, jobs, ch)
+        if sc.get('line'):
+            from yaql.language import contexts, expressions, runner, specs, yaqltypes
+            mods = (yaqltypes, specs) if sc.get('narrow') else (yaqltypes, specs, runner, contexts, expressions)
+            mon.lp = hooks.LinePoints(hooks.module_codes(*mods)).start()
+        try:
+            res, b = run_schedule(mon, jobs, ch)
+        finally:
+            if mon.lp is not None:
+                mon.lp.stop()
+                mon.lp = None
         for j, w, r in zip(jobs, base, res):
             print('  %r alone -> %r ; under the schedule -> %r' % (j[0], w, r))
         judge(mon, rec, jobs, base, res, b, sc)
